@@ -205,7 +205,17 @@ func (o *C05Oracle) checkEnded(s *Sim, how string, po ordertypes.Order, pre, pos
 	if !exists {
 		// the committed model may have reached the end of its own paid term meanwhile
 		if _, was := pre.Metas[rec.dataId]; was {
-			s.FailT("committed-model-removed", "", trig, "%s of update order %d removed the committed data model %s", how, po.Id, tail(rec.dataId))
+			// legitimate only when no stored shard of any committed version is left to go back to
+			// (the committed versions' paid term ended while the update was in flight)
+			for _, sh := range post.Shards {
+				if sh.Status != ordertypes.ShardCompleted {
+					continue
+				}
+				if o, ok := post.Orders[sh.OrderId]; ok && o.DataId == rec.dataId {
+					s.FailT("committed-model-removed", "", trig, "%s of update order %d removed the committed data model %s although shard %d of it is still stored", how, po.Id, tail(rec.dataId), sh.Id)
+				}
+			}
+			s.Label("c05-model-ended-with-update")
 		}
 		return
 	}
